@@ -98,7 +98,8 @@ def run(ctx):
             return (n + 4) * EPS * (ws + c["table"][mask][0] * D / 2.0 + ((abs(float(c["dod"])) + wall + L * D / 2.0) if sp else 0.0))
         if m.get("status") == "ok":
             for mask, (ea, em) in enumerate(zip(a["entries"], m["entries"])):
-                if ea[0] != em[0] or ea[1] != em[1] or not bits_close(ea[3], em[3], 4, absol=entry_tol(mask, ea[1])):
+                # the model mirrors the order of the code's additions: bit for bit (the exact oracle below is compared with a tolerance)
+                if ea[0] != em[0] or ea[1] != em[1] or not bits_close(ea[3], em[3], 0):
                     ctx.mismatch("table entry (loop_number, spanning, generalized_dod) model vs implementation", r,
                                  {"mask": mask, "entry": ea}, {"mask": mask, "entry": em}); break
         for mask, ea in enumerate(a["entries"]):
